@@ -323,6 +323,61 @@ def rule_r9(repo):
     return res
 
 
+def rule_r11(repo):
+    """A copy-and-paste slip with an exact signature: two parts of the goal are unpacked together
+    (`o1, o2 = rhs.arg.args`), one of them is compared twice in the same condition (`o2 == p1 and ... and
+    p1 == o2`) and the other is never read.  The unread part can then be anything."""
+    res = RuleResult('C18.R11', 'of two goal parts unpacked together, none is left unread while the other is compared twice in one condition', floor=60)
+    n_funcs = 0
+    for f in mr.verit_eval_side_functions(repo):
+        if f.parent is not None:
+            continue
+        n_funcs += 1
+        cfg = None
+        bad = []
+        for b in ast.walk(f.node):
+            if not (isinstance(b, ast.BoolOp) and isinstance(b.op, ast.And)):
+                continue
+            seen = {}
+            dups = []
+            for v in b.values:
+                cp = compare_parts(v)
+                if cp and cp[0] is ast.Eq:
+                    k = frozenset((src(cp[1], 100), src(cp[2], 100)))
+                    if k in seen:
+                        dups.append(v)
+                    seen[k] = v
+            for d in dups:
+                names = {x.id for x in ast.walk(d) if isinstance(x, ast.Name)}
+                cfg = cfg or cfg_of(f.node)
+                node = cfg.node_for(d)
+                if node is None:
+                    continue
+                for nm in sorted(names):
+                    for a in cfg.reaching_assignments(node, nm):
+                        if not (a.kind == 'stmt' and isinstance(a.ast, ast.Assign) and isinstance(a.ast.targets[0], (ast.Tuple, ast.List))):
+                            continue
+                        sibs = [t.id for t in a.ast.targets[0].elts if isinstance(t, ast.Name) and t.id != nm and not t.id.startswith('_')]
+                        for sname in sibs:
+                            # is this assignment of the sibling read anywhere before it is overwritten?
+                            read = False
+                            for n2 in cfg.nodes:
+                                if n2 is a:
+                                    continue
+                                for h in cfg.headers(n2):
+                                    if any(isinstance(x, ast.Name) and x.id == sname and isinstance(x.ctx, ast.Load) for x in ast.walk(h)) and \
+                                            a in cfg.reaching_assignments(n2, sname):
+                                        read = True
+                            if not read:
+                                bad.append('`%s` (unpacked at line %d together with `%s`) is never read, and `%s` is tested twice at line %d' % (
+                                    sname, a.lineno, nm, src(d, 30), d.lineno))
+        res.add('%s :: %s :: unpacked-parts-compared' % (f.module.rel, f.qualname), not bad,
+                'no duplicated comparison next to an unread part' if not bad else bad[0] +
+                ': the second comparison was meant for the unread part, which is now unconstrained', f.loc, nontrivial=bool(bad))
+    res.info['functions_scanned'] = n_funcs
+    return res
+
+
 def rule_r10(repo):
     """C04.M10 restricted to the veriT evaluators (whose expansions no baseline test runs)"""
     from .c04 import rule_m10
@@ -332,4 +387,4 @@ def rule_r10(repo):
 def rules(repo):
     r1 = mr.zip_rule(repo, 'C18.R1', mr.verit_eval_side_functions(repo), floor=9)
     r2 = mr.hyps_rule(repo, 'C18.R2', mr.verit_macros, floor=80)
-    return [r1, r2, rule_r3(repo), rule_r4(repo), rule_r5(repo), rule_r6(repo), rule_r7(repo), rule_r8(repo), rule_r9(repo), rule_r10(repo)]
+    return [r1, r2, rule_r3(repo), rule_r4(repo), rule_r5(repo), rule_r6(repo), rule_r7(repo), rule_r8(repo), rule_r9(repo), rule_r10(repo), rule_r11(repo)]
